@@ -274,6 +274,15 @@ func cmdRun(prop, tier, only string, verbose bool, workers int, solverBin string
 						ref.ce.Confirmed = true
 					}
 				}
+				// interpreter-only observation (vAssertI): the replay is the concrete re-execution
+				// of the real code in the interpreter (whose fidelity is validated against native
+				// traces on every run)
+				for _, l := range ref.conc {
+					if l == "#iassert "+ref.ce.Obligation+" 0" {
+						ref.ce.Confirmed = true
+						ref.ce.ReplayOut += " | confirmed by concrete re-execution in the interpreter (observation point is a recorder stub that does not exist natively)"
+					}
+				}
 			}
 		}
 	}
